@@ -55,6 +55,12 @@ Theorem C13_vtk_roundtrip :
     arrays2dict (dict2arrays d) = d.
 Proof. exact @vtk_roundtrip. Qed.
 
+(* YAML of a Cluster: the dictionary written by _asdict determines BOTH constructor flags, for all four combinations
+   (transition-state clusters of a vacancy cluster expansion have both set) *)
+Theorem C13_cluster_flags_roundtrip :
+  forall t v : bool, cluster_flags_of_keys (cluster_asdict_keys t v) = (t, v).
+Proof. exact cluster_flags_roundtrip. Qed.
+
 Goal True. idtac "ASSUMPTIONS-OF C13_flat_roundtrip_partial". Abort.
 Print Assumptions C13_flat_roundtrip_partial.
 Goal True. idtac "ASSUMPTIONS-OF C13_flat_roundtrip_general". Abort.
@@ -69,3 +75,5 @@ Goal True. idtac "ASSUMPTIONS-OF C13_pslist_roundtrip". Abort.
 Print Assumptions C13_pslist_roundtrip.
 Goal True. idtac "ASSUMPTIONS-OF C13_vtk_roundtrip". Abort.
 Print Assumptions C13_vtk_roundtrip.
+Goal True. idtac "ASSUMPTIONS-OF C13_cluster_flags_roundtrip". Abort.
+Print Assumptions C13_cluster_flags_roundtrip.
